@@ -911,7 +911,11 @@ PyObject* py_hitmiss(PyObject* self, PyObject* args) {
     PyArrayObject* array;
     PyArrayObject* Bc;
     PyArrayObject* res_a;
-    if (!PyArg_ParseTuple(args, "OOO", &array, &Bc, &res_a)) {
+    if (!PyArg_ParseTuple(args, "OOO", &array, &Bc, &res_a) ||
+        !numpy::are_arrays(array, Bc, res_a) ||
+        !numpy::same_shape(array, res_a) ||
+        !numpy::equiv_typenums(array, Bc, res_a) ||
+        !PyArray_ISCARRAY(res_a)) {
         PyErr_SetString(PyExc_RuntimeError,TypeErrorMsg);
         return NULL;
     }
